@@ -415,3 +415,33 @@ V('c04-unknown-not-reported', 'C04', 'hl7apy/validation.py',
   "            if el.is_unknown():\n                return", rule='C04-R')
 V('c04-table-negative-min', 'C04', 'hl7apy/v2_4/segments.py', "('ACC_1', FIELDS['ACC_1'], (0, 1), 'FIE')",
   "('ACC_1', FIELDS['ACC_1'], (2, 1), 'FIE')", rule='C04-C')
+
+# ---------------------------------------------------------------- C15
+V('c15-raise-keyerror', 'C15', 'hl7apy/parser.py',
+  "    try:\n        reference = message_profile[message_structure] if message_profile else None\n    except KeyError:\n        raise MessageProfileNotFound()",
+  "    try:\n        reference = message_profile[message_structure] if message_profile else None\n    except KeyError:\n        raise KeyError(message_structure)",
+  rule='C15-T')
+V('c15-raise-typeerror-in-encoder', 'C15', 'hl7apy/core.py',
+  "        if encoding_chars is None:\n            encoding_chars = self.encoding_chars\n\n        child_class = list(self.child_classes.values())[0]",
+  "        if encoding_chars is None:\n            encoding_chars = self.encoding_chars\n        if not isinstance(encoding_chars, dict):\n            raise TypeError('encoding_chars must be a dict')\n\n        child_class = list(self.child_classes.values())[0]",
+  rule='C15-T')
+V('c15-msh9-unguarded', 'C15', 'hl7apy/parser.py',
+  "    fields, enc_chars = _split_msh(content)\n\n    try:\n        msh_9 = fields[8].strip()\n    except IndexError:\n        msh_9 = None\n\n    return msh_9",
+  "    fields, enc_chars = _split_msh(content)\n\n    msh_9 = fields[8].strip()\n\n    return msh_9", rule='C15-I')
+V('c15-msh12-unguarded', 'C15', 'hl7apy/parser.py',
+  "    try:\n        msh_12 = fields[11].strip()\n    except IndexError:\n        version = None\n    else:",
+  "    msh_12 = fields[11].strip()\n    if True:", rule='C15-I')
+V('c15-to-er7-reads-reference', 'C15', 'hl7apy/core.py',
+  "        separator = encoding_chars.get('FIELD')\n        repetition = encoding_chars.get('REPETITION')",
+  "        separator = encoding_chars.get('FIELD')\n        repetition = encoding_chars.get('REPETITION') if self.reference else None",
+  rule='C15-A')
+V('c15-router-no-mapping', 'C15', 'hl7apy/mllp.py',
+  "            try:\n                msg_type = get_message_type(msg)\n            except ParserError:\n                raise InvalidHL7Message\n",
+  "            msg_type = get_message_type(msg)\n", rule='C15-M')
+V('c15-fix-fields11', 'C15', 'hl7apy/parser.py',
+  "            elif len(seps) == N_SEPS_27 and fields[11] >= '2.7':",
+  "            elif len(seps) == N_SEPS_27 and len(fields) > 11 and fields[11] >= '2.7':", expect='fixed:C15-I|parser._split_msh')
+V('c15-fix-validate-reference', 'C15', 'hl7apy/core.py',
+  "        return Validator.validate(self, reference=self.reference, report_file=report_file, return_errors=return_errors)",
+  "        return Validator.validate(self, reference=getattr(self, 'reference', None), report_file=report_file,\n                                  return_errors=return_errors)",
+  expect='fixed:C15-A|core.Element.validate')
